@@ -127,14 +127,16 @@ CompletenessProps(g2, u, e) ==
     (IF g2.enc[e].recaps THEN {"C18"} ELSE {})
     \cup (IF g2.usk[u].refreshed THEN {"C04"} ELSE {})
     \cup (IF g2.edited THEN {"C03"} ELSE {})
-    \cup (IF ~g2.edited /\ ~g2.usk[u].refreshed /\ ~g2.enc[e].recaps THEN {"C01"} ELSE {})
+    \* C01 speaks about a key as generated (rotation and re-encapsulation have their own properties)
+    \cup (IF ~g2.usk[u].refreshed /\ ~g2.enc[e].recaps THEN {"C01"} ELSE {})
 
 SoundnessProps(g2, u, e) ==
     LET rs == Reasons(g2, u, e)
     IN (IF g2.enc[e].recaps THEN {"C18"} ELSE {})
        \cup (IF "removed" \in rs THEN {"C05"}
              ELSE IF rs \cap {"nokeep", "stale", "old"} # {} THEN {"C04"}
-             ELSE IF g2.edited THEN {"C03"} ELSE {"C02"})
+             \* not granted at all: C02 whatever the history, and C03 when the structure was edited
+             ELSE IF g2.edited THEN {"C02", "C03"} ELSE {"C02"})
 
 OpensViol(g2, ev) ==
     LET rows == Get(ev, "opens", <<>>)
